@@ -914,6 +914,40 @@ func ruleReaderFlow(r *Run, rule string, k *serKind) {
 	var checkFlow func(body ast.Node, param types.Object, depth int)
 	checkFlow = func(body ast.Node, param types.Object, depth int) {
 		allowed := map[token.Pos]bool{}
+		// plain aliases of the stream are the stream: their defining use is allowed, their own uses obey the same rule
+		aliases := ioAliases(w.Info, body, param)
+		isParam := func(obj types.Object) bool { return obj != nil && (obj == param || aliases[obj]) }
+		ast.Inspect(body, func(n ast.Node) bool {
+			switch x := n.(type) {
+			case *ast.ValueSpec:
+				for i, nm := range x.Names {
+					if i < len(x.Values) && aliases[w.Info.Defs[nm]] {
+						if id, ok := ast.Unparen(x.Values[i]).(*ast.Ident); ok {
+							allowed[id.Pos()] = true
+						}
+					}
+				}
+			case *ast.AssignStmt:
+				if x.Tok == token.DEFINE && len(x.Lhs) == len(x.Rhs) {
+					for i, l := range x.Lhs {
+						if lid, ok := l.(*ast.Ident); ok && aliases[w.Info.Defs[lid]] {
+							if id, ok := ast.Unparen(x.Rhs[i]).(*ast.Ident); ok {
+								allowed[id.Pos()] = true
+							}
+						}
+					}
+				}
+				// `_ = alias` keeps the compiler quiet and is not a use of the stream
+				if x.Tok == token.ASSIGN && len(x.Lhs) == 1 && len(x.Rhs) == 1 {
+					if lid, ok := x.Lhs[0].(*ast.Ident); ok && lid.Name == "_" {
+						if id, ok := x.Rhs[0].(*ast.Ident); ok {
+							allowed[id.Pos()] = true
+						}
+					}
+				}
+			}
+			return true
+		})
 		ast.Inspect(body, func(n ast.Node) bool {
 			c, ok := n.(*ast.CallExpr)
 			if !ok {
@@ -942,7 +976,7 @@ func ruleReaderFlow(r *Run, rule string, k *serKind) {
 					if d := w.Decl(w.Name(sf)); d != nil && d.Body != nil {
 						for i, a := range c.Args {
 							id, ok := a.(*ast.Ident)
-							if !ok || w.Info.Uses[id] != param {
+							if !ok || !isParam(w.Info.Uses[id]) {
 								continue
 							}
 							j := 0
@@ -963,7 +997,7 @@ func ruleReaderFlow(r *Run, rule string, k *serKind) {
 		})
 		ast.Inspect(body, func(n ast.Node) bool {
 			id, ok := n.(*ast.Ident)
-			if !ok || w.Info.Uses[id] != param {
+			if !ok || !isParam(w.Info.Uses[id]) {
 				return true
 			}
 			uses++
@@ -1316,6 +1350,10 @@ func ruleImplicitInvariants(r *Run, rule string) {
 	}
 	// (c) codes have M bytes
 	for _, enc := range annEncodeFns(w) {
+		// only the encoders themselves ([]uint8 result), not the codeword-search helpers listed with them
+		if enc.Signature.Results().Len() != 1 || enc.Signature.Results().At(0).Type().String() != "[]uint8" {
+			continue
+		}
 		c := NewCanon(w)
 		ok := false
 		for _, ret := range returnsOf(enc) {
